@@ -142,6 +142,10 @@ def render(block, ind=0, counter=None, trace_interrupts=False, walrus_iter=False
                 # the iterable holds an assignment expression (it must be evaluated in front of the
                 # comprehension the loop is lowered to)
                 for_head = "for v%d in (w%d := IT(%%d)):" % (i, i)
+            if walrus_iter == "iterator":
+                # the loop is over an ITERATOR object: the for statement still takes iter() of it,
+                # once (logged as iter2 by the kit)
+                for_head = "for v%d in iter(IT(%%d)):" % i
             head = {"if": "if C(%d):", "wh": "while W(%d):", "for": for_head}[k]
             lines.append(p + head % i)
             lines += render(s[1], ind + 1, counter, trace_interrupts, walrus_iter)
@@ -157,7 +161,7 @@ def program(block, placement, trace_interrupts=False, walrus_iter=False):
         global render
         plain = render
         try:
-            render = lambda b, i=0, c=None, t=False, w=True: plain(b, i, c, t, True)
+            render = lambda b, i=0, c=None, t=False, w=True, _w=walrus_iter: plain(b, i, c, t, _w)
             return program(block, placement, trace_interrupts, False)
         finally:
             render = plain
